@@ -218,6 +218,41 @@ func (x *gen) tape(n, words, style int) []uint32 {
 	return t
 }
 
+// classRoleBlock: every class flag in every role (allowed, required, excluded) against every
+// other class in every other role, plus one custom character from inside and one from outside
+// the class: the small recipes on which a wrong table entry, a dropped flag or a mis-ordered
+// exclusion shows.
+func (x *gen) classRoleBlock() {
+	flags := []uint32{1, 2, 4, 8, 16}
+	inside := map[uint32]string{1: "Q", 2: "q", 4: "7", 8: "@", 16: "l"}
+	for _, f := range flags {
+		for _, g := range flags {
+			for role := 0; role < 6; role++ {
+				var r recipeSpec
+				r.L = 2 + x.g.intn(3)
+				switch role {
+				case 0:
+					r.allow, r.require = f, g
+				case 1:
+					r.allow, r.exclude = f|g, g
+				case 2:
+					r.require, r.exclude = f, g
+				case 3:
+					r.allow, r.require, r.exclude = 15, f, g
+				case 4:
+					r.allow, r.rs, r.exclude = f, []string{inside[g] + "é"}, g
+				default:
+					r.ac, r.require, r.ec = inside[f]+"xyz", g, inside[g]
+				}
+				x.emit("charinfo r=%s", r.enc())
+				if x.g.chance(35) {
+					x.chargenOp(r, "")
+				}
+			}
+		}
+	}
+}
+
 // collisionPairOps: two DIFFERENT recipes whose fields print alike (the same characters split
 // differently into required sets, a digit moved between a flag word and the start of a custom
 // string, …), evaluated one after the other in the same process: a memo table keyed by a lossy
@@ -555,6 +590,19 @@ func (x *gen) sepSpec() string {
 	}
 }
 
+// customSep: a caller-written separator function that picks one of several strings (possibly the
+// empty one) with a bounded draw and reports a fixed non-zero entropy: "custom:<D>:<strings>",
+// entropy = log2 D.
+func (x *gen) customSep() string {
+	outs := []string{"", "-", "ab", "é", "--", "7"}
+	n := 1 + x.g.intn(4)
+	var l []string
+	for i := 0; i < n; i++ {
+		l = append(l, outs[x.g.intn(len(outs))])
+	}
+	return fmt.Sprintf("custom:%d:%s", []int{2, 3, 7, 16}[x.g.intn(4)], encList(l))
+}
+
 func (x *gen) wlLength() int {
 	switch c := x.g.intn(100); {
 	case c < 4:
@@ -612,6 +660,9 @@ func (x *gen) wlgenOp(op string, extraArgs string) {
 	words := x.wordList(true)
 	L := x.wlLength()
 	sep := x.sepSpec()
+	if x.g.chance(12) {
+		sep = x.customSep()
+	}
 	scheme := schemes[x.g.intn(len(schemes))]
 	if x.g.chance(60) {
 		scheme = schemes[x.g.intn(5)]
@@ -628,6 +679,9 @@ func (x *gen) wlgenOp(op string, extraArgs string) {
 		}
 	}
 	t := x.wlTape(len(words), L, sep, x.g.intn(6))
+	if x.g.chance(20) {
+		extraArgs += " twice=1"
+	}
 	x.emit("%s %s L=%d sep=%s cap=%s%s tape=%s%s", op, wa, L, sep, encCps(scheme), x.budget(), encWords(t), extraArgs)
 }
 
@@ -1247,6 +1301,7 @@ func generate(prop, tier string, seed uint64) []string {
 		rep(400, func() { x.chargenOp(x.recipe(1), "") })
 		rep(300, func() { x.chargenOp(x.recipe(0), "") })
 	case "C03":
+		x.classRoleBlock()
 		rep(80, x.sameLeadOp)
 		rep(600, func() { x.charinfoOp(x.recipe(x.g.intn(4))) })
 		rep(900, func() { x.chargenOp(x.recipe(x.g.intn(4)), "") })
@@ -1301,6 +1356,7 @@ func generate(prop, tier string, seed uint64) []string {
 		rep(8, x.collisionPairOps)
 		rep(60, func() { x.historyOps(25) })
 	case "C16":
+		x.classRoleBlock()
 		x.presetCells()
 		x.emit("wlnew words=@agilewords show=0 reps=1")
 		x.emit("wlnew words=@agilesyllables show=0 reps=1")
@@ -1371,6 +1427,18 @@ func generate(prop, tier string, seed uint64) []string {
 		rep(100, x.tokenizeOp)
 	default:
 		return nil
+	}
+	// Replay the head of the stream at its end, in the same process: whatever the library has seen
+	// in between, the same call must give the same answer (process-level caches, polluted shared
+	// tables, once-flags show up here for every property).
+	head := 80
+	if len(x.out) < head {
+		head = len(x.out)
+	}
+	for _, l := range x.out[:head] {
+		if !strings.Contains(l, " obj=") && !strings.Contains(l, " wlobj=") && len(l) < 20000 {
+			x.out = append(x.out, l)
+		}
 	}
 	return x.out
 }
